@@ -316,7 +316,7 @@ func (d *CIDFontType0) MakeFont() font.Instance {
 		CIDFontType0: d,
 		codec:        codec,
 		defaultText:  defaultText,
-		cache:        make(map[charcode.Code]font.Code),
+		cache:        make(map[codeKey]font.Code),
 	}
 }
 
@@ -329,7 +329,7 @@ type t0Font struct {
 	codec       *charcode.Codec
 	defaultText map[cmap.CID]string
 	mu          sync.Mutex
-	cache       map[charcode.Code]font.Code
+	cache       map[codeKey]font.Code
 }
 
 func (f *t0Font) Embed(rm *pdf.EmbedHelper) (pdf.Native, error) {
@@ -376,7 +376,8 @@ func (f *t0Font) Codes(str pdf.String) iter.Seq[font.Code] {
 			code, k, isValid := f.codec.Decode(str)
 
 			f.mu.Lock()
-			res, seen := f.cache[code]
+			key := codeKey{code, k, isValid}
+			res, seen := f.cache[key]
 			if !seen {
 				codeBytes := str[:k]
 				if isValid {
@@ -402,7 +403,7 @@ func (f *t0Font) Codes(str pdf.String) iter.Seq[font.Code] {
 				if isValid {
 					res.Text = f.lookupText(f.defaultText, res.CID, codeBytes)
 				}
-				f.cache[code] = res
+				f.cache[key] = res
 			}
 			f.mu.Unlock()
 
